@@ -29,6 +29,8 @@ def run(ctx):
         variants = [("edit", sv1)]
         if e["k"] == "Blunder":
             variants.append(("delete", session.apply_edit(sv0, {"k": "DeleteObs", "obs": e["obs"], "tol": e["tol"]})))
+        else:
+            variants.append(("delete", sv0))          # Isolate: the network without the new point and its single observation
         for name, sv in variants:
             jobs.append({"gkf": sv.gkf(), "args": [], "want": ["xml", "text"]})
             meta.append((si, name, sv))
@@ -58,6 +60,18 @@ def run(ctx):
                 report("isolate_adjusted", "point X has a single determining distance but is adjusted")
             if not re.search(r"^\s*X\s+\S", txt, re.M):
                 report("isolate_unreported", "removed point X is not listed with a reason in the text output")
+            run2, sv2, job2 = d["delete"]
+            if gl.classify(run2) == "adjusted":
+                P2 = session.project(run2.res, sv2)
+                if e["s"] in (2, 4) and sv.dim == 3:
+                    # with a height difference to X its height stays determined (one more observation and unknown): the other points must not move
+                    for pid, pc in P2["pts"].items():
+                        for c_ in ("e", "n", "u"):
+                            if c_ in pc and abs(pc[c_] - P["pts"].get(pid, {}).get(c_, 1e9)) > 3e-6:
+                                report("isolate_vs_delete_coords", "point %s %s: %r without X, %r with X" % (pid, c_, pc[c_], P["pts"].get(pid, {}).get(c_)))
+                else:
+                    session.check_law(P2, P, {"k": "ExcludeVsDelete"}, {"coords": "same", "obs": "same", "stats": "same", "cov": "same"}, sv2, sv,
+                                      lambda c, m: report("isolate_vs_delete_" + c, m))
             continue
         o = sv.obs[session.resolve_obs(sv, e["obs"]) - 1]
         ang = o["t"] in ("direction", "angle", "azimuth", "z-angle")
